@@ -4,6 +4,7 @@ fn main() {
   let n = |i: usize| -> u64 { a.get(i).map(|s| s.parse::<u64>().expect("u64 argument")).unwrap_or(0) };
   let ok = match a.get(1).map(|s| s.as_str()).unwrap_or("") {
     "o11_determine_index" => c_determine_index(n(2) as usize, n(3)),
+    "o11_list_determine_index" => c_list_determine_index(n(2) as usize, n(3)),
     other => { eprintln!("unknown contract {other}"); std::process::exit(2) },
   };
   println!("contract {} on {:?}: {}", a[1], &a[2..], if ok { "HOLDS" } else { "VIOLATED" });
